@@ -755,6 +755,10 @@ def install(reg):
         raise Unsupported("all(axis)")
     reg.array_methods["all"] = _all
 
+    @fn("numpy.all")
+    def np_all(itp, a, k):
+        return _all(itp, to_array(itp, a[0]), list(a[1:]), k)
+
     @fn("numpy.mean")
     def np_mean(itp, a, k):
         v = to_array(itp, a[0])
